@@ -630,6 +630,20 @@ class MBXML:
         return uint, idx + 1
 
     @classmethod
+    def write_fraction(cls, value: int, precision: int) -> bytes:
+        """
+        write decimal part of (u/s)floatvar, value / 128**precision, as septets (most significant first);
+        reader derives the divisor from number of septets, so leading zero septets are kept,
+        trailing zero septets (that do not change the value) are omitted
+        """
+        septets: List[int] = [
+            (value >> (7 * i)) & 0x7F for i in range(precision - 1, -1, -1)
+        ]
+        while len(septets) > 1 and septets[-1] == 0:
+            septets.pop()
+        return bytes([septet | 0x80 for septet in septets[:-1]] + septets[-1:])
+
+    @classmethod
     def write_ufloatvar(cls, value: float, precision: int) -> bytes:
         """
         write ufloatvar and return bytes representation
@@ -638,7 +652,7 @@ class MBXML:
         int_part = int(value)
         dec_part = int(value % 1 * 128**precision)
         integer = cls.write_uintvar(int_part)
-        decimal = cls.write_uintvar(dec_part)
+        decimal = cls.write_fraction(dec_part, precision)
         return integer + decimal
 
     @classmethod
@@ -659,7 +673,7 @@ class MBXML:
         int_part = int(value)
         dec_part = int(abs(value % (1 if value >= 0 else -1)) * 128**precision)
         integer = cls.write_sintvar(int_part, negative_zero=value < 0)
-        decimal = cls.write_uintvar(dec_part)
+        decimal = cls.write_fraction(dec_part, precision)
         return integer + decimal
 
     @classmethod
